@@ -35,7 +35,8 @@ var loopPolicies = map[string]loopPolicy{
 		"empty-value":           "an empty CPE 2.3 value is indistinguishable from an absent one in CycloneDX (omitempty) and must not erase a CPE 2.2"}},
 	"serializers.clearAutoRefs/*[]cyclonedx.Component": {skips: map[string]string{
 		"*": "which references are erased is decided by folding the eraser's own decision on sample identifiers (constant-agreement:cdx-auto-ref#<sample>), whatever string functions spell it"}},
-	"serializers.(*CDX).dependencies/To": {skips: map[string]string{"dedupe": "a dependency target is listed once per edge; the key is the target id itself"}},
+	"serializers.(*CDX).dependencies/To": {skips: map[string]string{"dedupe": "a dependency target is listed once per edge; the key is the target id itself",
+		"self-edge": "a component cannot be nested in itself: the CycloneDX tree has no place for a containment self-edge, and nesting-is-acyclic (C07) requires the exclusion"}},
 	// --- CycloneDX reader ---
 	"unserializers.(*CDX).componentToNode/Hashes":                            {skips: map[string]string{"dedupe": "the model holds one value per hash algorithm; the key is the algorithm number"}},
 	"unserializers.(*CDX).licenseChoicesToLicenseList/*cyclonedx.Licenses":   {skips: map[string]string{"empty(Expression)&empty(ID)": "a choice with neither expression nor licence id is not representable"}},
